@@ -3,11 +3,13 @@ package corecheck
 import (
 	"context"
 	"fmt"
+	"strings"
 	"testing"
 	"time"
 
 	"github.com/Comcast/sheens/core"
 	"github.com/Comcast/sheens/match"
+	"github.com/Comcast/sheens/sio"
 	"pgregory.net/rapid"
 	"verif/lib/crewh"
 	"verif/lib/ev"
@@ -106,10 +108,30 @@ func judgeEmissions(a *sm.ASpec, w *core.Walked, v *ev.Verdict) (failedAfterEmit
 			if alt && len(got) == 0 {
 				continue
 			}
+			if len(got) == 0 && strideTimedOut(s) {
+				// the walk's deadline passed while this action ran (a busy
+				// machine): it was cut short, and then nothing is emitted
+				expired = true
+				continue
+			}
 			return failedAfterEmit, completedEmitters, fmt.Sprintf("stride %d at %q emitted %v; its action's completed emissions are %v", i, s.From.NodeName, got, want)
 		}
 	}
 	return failedAfterEmit, completedEmitters, ""
+}
+
+// strideTimedOut: the stride ended in an action error whose text is the
+// interpreter's timeout error.
+func strideTimedOut(s *core.Stride) bool {
+	if s == nil || s.To == nil {
+		return false
+	}
+	for _, k := range []string{"actionError", "error"} {
+		if t, ok := s.To.Bs[k].(string); ok && strings.Contains(t, "timeout") {
+			return true
+		}
+	}
+	return false
 }
 
 func checkEmit(c EmitCase) (v ev.Verdict) {
@@ -225,7 +247,16 @@ func checkEmit(c EmitCase) (v ev.Verdict) {
 	}
 	// SetMachine with a state for a new machine creates it with that state
 	for i, m := range c.Messages {
-		r, err := cr.ProcessMsg(cctx, jsongen.Copy(m))
+		var r *sio.Result
+		var err error
+		done := make(chan struct{})
+		go func() { defer close(done); r, err = cr.ProcessMsg(cctx, jsongen.Copy(m)) }()
+		select {
+		case <-done:
+		case <-time.After(30 * time.Second):
+			v.Failf("the crew did not finish processing message %d within 30 s although the machine's walks terminate", i)
+			return
+		}
 		if err != nil {
 			v.Failf("ProcessMsg: %v", err)
 			return
